@@ -222,7 +222,13 @@ func execute(cfg config) int {
 		for _, r := range cur {
 			prepare(cfg, work, mod, r, iters)
 		}
-		goTest(work, mod, cur, hard-time.Since(start))
+		limit := hard - time.Since(start)
+		if total == 0 && limit < 10*time.Minute {
+			// the first batch always runs to its end, however slow the machine is: a check that
+			// compared nothing proves nothing (and must not be mistaken for a failure either)
+			limit = 10 * time.Minute
+		}
+		goTest(work, mod, cur, limit)
 		perRun = (perRun*time.Duration(total) + time.Since(t0)) / time.Duration(total+len(cur))
 		for _, r := range cur {
 			total++
@@ -286,6 +292,10 @@ func setupModule(mod string) error {
 func canonical(f *schema.File) string { return strings.Join(f.Tokens(), " ") }
 
 // generate runs the compiler and generator with a guard against panics and hangs.
+// hangAfter: a compiler / generator call that has not returned after this long is reported as a hang
+// (an endless loop lasts forever; a busy machine does not)
+const hangAfter = 120 * time.Second
+
 func generate(src, dst string, imports []string, skipRPC bool) (err error, panicked string, hung bool) {
 	type res struct {
 		err error
@@ -303,7 +313,7 @@ func generate(src, dst string, imports []string, skipRPC bool) (err error, panic
 	select {
 	case r := <-ch:
 		return r.err, r.p, false
-	case <-time.After(20 * time.Second):
+	case <-time.After(hangAfter):
 		return nil, "", true
 	}
 }
